@@ -93,6 +93,32 @@ impl LspSession {
         self.c.barrier(&uri)
     }
 
+    /// A comparison failed: before it is believed, give the server another chance to be observed
+    /// completely (idle again, a pause, a second barrier). A state that is really wrong stays wrong -
+    /// the server is idle and nothing is sent meanwhile - while a publication that was still on its
+    /// way when the first barrier was answered has arrived afterwards. Returns false on timeout.
+    pub fn resettle(&mut self) -> bool {
+        let Some(last) = self.last_touched.clone() else { return true };
+        std::thread::sleep(Duration::from_millis(150));
+        if !self.sched.wait_idle(self.notifications_sent, Duration::from_secs(60)) {
+            return false;
+        }
+        let uri = self.tw.uri(&last);
+        let before = self.c.notifications.len();
+        let ok = self.c.barrier(&uri);
+        if self.c.notifications.len() != before {
+            // keep a trace for the developer: this should not happen if the barrier is a barrier
+            let rec = json!({
+                "late": self.c.notifications[before..].iter().map(|n| n["params"]["uri"].clone()).collect::<Vec<_>>(),
+                "points": self.sched.log().iter().map(|(a, s)| format!("{a}:{s}")).collect::<Vec<_>>(),
+            });
+            let dir = crate::fw::sup::verif_dir().join("harness/target/run");
+            let _ = std::fs::create_dir_all(&dir);
+            let _ = std::fs::write(dir.join(format!("late-publication-{}-{}.json", std::process::id(), before)), rec.to_string());
+        }
+        ok
+    }
+
     pub fn finish(self) {
         Sched::unregister(&self.tag);
         self.c.shutdown();
@@ -141,6 +167,19 @@ pub fn outline_names(v: &Value) -> Value {
 /// analysis over `model` (name -> text) rooted at `root`. Ok(()) or Err((what, detail)); Err with
 /// what == "" means inconclusive (no response).
 pub fn compare_with_fresh(s: &mut LspSession, model: &BTreeMap<String, String>, root: &str) -> Result<(), (String, String)> {
+    match compare_with_fresh_once(s, model, root) {
+        Ok(()) => Ok(()),
+        Err(e) if e.0.is_empty() => Err(e),
+        Err(_) => {
+            if !s.resettle() {
+                return Err((String::new(), "not idle".into()));
+            }
+            compare_with_fresh_once(s, model, root)
+        }
+    }
+}
+
+fn compare_with_fresh_once(s: &mut LspSession, model: &BTreeMap<String, String>, root: &str) -> Result<(), (String, String)> {
     let expected = expected_diagnostics(&s.tw, model, root);
     let published = s.c.last_diagnostics();
     for (uri, want) in &expected {
